@@ -37,7 +37,7 @@ TYPE_OF = {"make_fail": "rule", "make_response": "rule", "make_pass": "pass", "m
            "make_metadata": "metadata", "make_none": "none", "make_metadata_key": "metadata_key"}
 KEYNAME = {"make_fail": "error_key", "make_response": "error_key", "make_pass": "pass_key", "make_info": "info_key",
            "make_fingerprint": "fingerprint_key", "make_metadata": None, "make_none": "none_key", "make_metadata_key": "key"}
-KEYS = {"none": None, "empty": "", "valid": "SOME_KEY", "int": 7, "list": ["K"], "zero": 0}
+KEYS = {"none": None, "empty": "", "valid": "SOME_KEY", "int": 7, "list": ["K"], "zero": 0, "bytes": b"BYTES_KEY", "tuple": ("K",), "true": True}
 PAYLOADS = [0, 10, 100, "non-ascii", "quotes", "tuple-keyed-dict", "nested", "control"]
 
 
